@@ -26,10 +26,11 @@ type Cfg struct {
 	Spellings   int     `json:"spellings"`    // 0 plain, 1 mixed, 2 wild
 	Acyclic     bool    `json:"acyclic"`      // schema references only point "forward"
 	IllFounded  bool    `json:"illfounded"`   // element reference chains may loop (C04 only)
-	IDs         int     `json:"ids"`          // 0 none, 1 safe kinds, 2 all kinds incl. relative directory (C04 only)
+	IDs         int     `json:"ids"`          // 0 none, 1 safe kinds, 2 all kinds incl. relative directory (C04 only), 3 colliding absolute ids (C18)
 	Siblings    bool    `json:"siblings"`     // schema $ref holders with sibling keywords
 	HTTP        bool    `json:"http"`         // allow http documents
 	RootElems   bool    `json:"rootelems"`    // root has parameters/responses sections
+	CaseTwins   bool    `json:"casetwins"`    // some definitions get a twin whose name differs in letter case only
 	SelfIDs     bool    `json:"selfids"`      // bare-schema documents carry their own URL as id (published schemas)
 }
 
@@ -49,6 +50,7 @@ func DrawCfg(r *sim.RNG) Cfg {
 		Siblings:  r.Bool(0.2),
 		HTTP:      r.Bool(0.5),
 		RootElems: r.Bool(0.8),
+		CaseTwins: r.Bool(0.2),
 	}
 	all := []string{"properties", "items", "itemsArr", "allOf", "anyOf", "oneOf", "not", "additionalProperties", "patternProperties", "dependencies", "additionalItems", "definitions"}
 	if r.Bool(0.5) {
@@ -81,8 +83,10 @@ var filePool = []string{
 	"file://" + Prefix + "/api/a.json", "file://" + Prefix + "/api/sub/b.json", "file://" + Prefix + "/api/sub/deep/c.json",
 	"file://" + Prefix + "/lib/d.json", "file:///e.json", "file://" + Prefix + "/api/sub/g.json", "file://" + Prefix + "/k.json",
 	"file://" + Prefix + "/api/dotted.name/m.v2.json",
+	// folders whose names extend (or are extended by) the name of the root's folder or of another folder
+	"file://" + Prefix + "/api-shared/s.json", "file://" + Prefix + "/ap/t.json", "file://" + Prefix + "/api/sub-x/u.json",
 }
-var httpPool = []string{"http://h.test/x/f.json", "http://h.test/x/y/i.json", "https://s.test/j.json", "http://h.test/n.json"}
+var httpPool = []string{"http://h.test/x/f.json", "http://h.test/x/y/i.json", "https://s.test/j.json", "http://h.test/n.json", "http://h.test/x-y/o.json"}
 
 var oddNames = []string{"a/b", "t~x", "sp ace", "p%q", "é", "q?r", "h#s", "{br}", "q\"t", "b\\s", "~1", "%41", "a+b", "x=y&z"}
 
@@ -181,7 +185,16 @@ func (g *gen) refString(from string, t target) string {
 
 func (g *gen) leaf() map[string]interface{} {
 	g.uniq++
-	return map[string]interface{}{"type": "string", "description": fmt.Sprintf("leaf%d", g.uniq)}
+	l := map[string]interface{}{"type": "string", "description": fmt.Sprintf("leaf%d", g.uniq)}
+	switch g.r.Intn(12) {
+	case 0:
+		l["x-tag"] = fmt.Sprintf("t%d", g.uniq)
+	case 1:
+		l["X-Mixed-Case"] = map[string]interface{}{"k": fmt.Sprintf("t%d", g.uniq)} // extension keys keep their spelling
+	case 2:
+		l["unknownKeyword"] = fmt.Sprintf("u%d", g.uniq) // unknown schema keywords survive too
+	}
+	return l
 }
 
 func (g *gen) pick(kind model.Kind, minOrd int) (target, bool) {
@@ -395,6 +408,19 @@ func Generate(r *sim.RNG, cfg Cfg) *model.World {
 			s.defs = append(s.defs, n)
 			add(model.KSchema, u, "/definitions/"+model.Esc(n))
 		}
+		if cfg.CaseTwins && r.Intn(2) == 0 {
+			n := swapCase(s.defs[r.Intn(len(s.defs))])
+			dup := false
+			for _, x := range s.defs {
+				if x == n {
+					dup = true
+				}
+			}
+			if !dup {
+				s.defs = append(s.defs, n)
+				add(model.KSchema, u, "/definitions/"+model.Esc(n))
+			}
+		}
 		if di > 0 || cfg.RootElems {
 			for i := 0; i < r.Intn(cfg.MaxNames+1); i++ {
 				n := g.name(i, "P")
@@ -573,8 +599,13 @@ var idAll = append(append([]string{}, idSafe...), "sub/", "deeper/dir/")
 
 func (g *gen) addIDs(w *model.World) {
 	pool := idSafe
-	if g.cfg.IDs > 1 {
+	if g.cfg.IDs == 2 {
 		pool = idAll
+	}
+	if g.cfg.IDs == 3 {
+		// absolute ids on a host no reference ever targets; few distinct values, so that several
+		// schemas declare the same id with different content
+		pool = []string{"http://ids.test/dir%d/", "http://ids.test/schemas/s%d.json"}
 	}
 	n := 0
 	var visit func(v interface{}, inSchema bool)
@@ -589,7 +620,11 @@ func (g *gen) addIDs(w *model.World) {
 					id := pool[g.r.Intn(len(pool))]
 					if strings.Contains(id, "%d") {
 						n++
-						id = fmt.Sprintf(id, n)
+						if g.cfg.IDs == 3 {
+							id = fmt.Sprintf(id, n%2)
+						} else {
+							id = fmt.Sprintf(id, n)
+						}
 					}
 					c["id"] = id
 				}
@@ -627,4 +662,17 @@ func sortedKeys[V any](m map[string]V) []string {
 func SpellRef(r *sim.RNG, from, toURL, ptr string, spellings int) string {
 	g := &gen{r: r, cfg: Cfg{Spellings: spellings}}
 	return g.refString(from, target{url: toURL, ptr: ptr})
+}
+
+func swapCase(s string) string {
+	b := []byte(s)
+	for i, c := range b {
+		switch {
+		case c >= 'a' && c <= 'z':
+			b[i] = c - 32
+		case c >= 'A' && c <= 'Z':
+			b[i] = c + 32
+		}
+	}
+	return string(b)
 }
